@@ -24,6 +24,12 @@ var (
 
 type myErr struct{ ID int }
 
+// a marker struct as a function's result
+type resSt struct {
+	am.Struct
+	Alpha scn.T1
+}
+
 func (e *myErr) Error() string { return fmt.Sprintf("myErr %d", e.ID) }
 
 // pointer types defined in terms of themselves (legal Go; reflection cannot synthesise them)
@@ -152,6 +158,13 @@ func tokOfAny(x interface{}) int {
 			return 0
 		}
 		return v.ID
+	case resSt:
+		return v.Alpha.ID
+	case *resSt:
+		if v == nil {
+			return 0
+		}
+		return v.Alpha.ID
 	}
 	return scn.IDOf(reflect.ValueOf(x))
 }
@@ -176,6 +189,10 @@ func obsC17(raw json.RawMessage) map[string]interface{} {
 			outT = append(outT, tErr)
 		case "cerr":
 			outT = append(outT, reflect.TypeOf(&myErr{}))
+		case "st":
+			outT = append(outT, reflect.TypeOf(resSt{}))
+		case "pst":
+			outT = append(outT, reflect.TypeOf(&resSt{}))
 		default:
 			outT = append(outT, scn.TypeOf(r))
 		}
@@ -203,6 +220,14 @@ func obsC17(raw json.RawMessage) map[string]interface{} {
 					res[i] = reflect.ValueOf(&myErr{ID: i + 1})
 				} else {
 					res[i] = reflect.Zero(reflect.TypeOf(&myErr{}))
+				}
+			case "st":
+				res[i] = reflect.ValueOf(resSt{Alpha: scn.MkValue("T1", i+1).Interface().(scn.T1)})
+			case "pst":
+				if d.NonNil[i] {
+					res[i] = reflect.ValueOf(&resSt{Alpha: scn.MkValue("T1", i+1).Interface().(scn.T1)})
+				} else {
+					res[i] = reflect.Zero(reflect.TypeOf(&resSt{}))
 				}
 			default:
 				res[i] = scn.MkValue(r, i+1)
@@ -267,7 +292,8 @@ type d14 struct {
 }
 
 var tagText = map[string]string{"none": "", "ren": `argmapper:"Ren"`, "typeOnly": `argmapper:",typeOnly"`,
-	"rensub": `argmapper:"Ren,subtype=s"`, "typeOnlysub": `argmapper:",typeOnly,subtype=s"`, "subeq": `argmapper:",typeOnly,subtype=k=v"`, "subup": `argmapper:"Ren,subtype=Foo"`}
+	"rensub": `argmapper:"Ren,subtype=s"`, "typeOnlysub": `argmapper:",typeOnly,subtype=s"`, "subeq": `argmapper:",typeOnly,subtype=k=v"`, "subup": `argmapper:"Ren,subtype=Foo"`,
+	"subfirst": `argmapper:",subtype=s,typeOnly"`, "renopt": `argmapper:"Ren,other"`, "typeOnlyRen": `argmapper:"Ren,typeOnly"`}
 
 func sideTypes(s sideD) []reflect.Type {
 	switch s.Kind {
